@@ -4,8 +4,8 @@ import json, re, subprocess
 claims = {
  "C14": ("SSA store census for process-global state (EFFECT-2), per-invocation VM and immutable program (EFFECT-5), value immutability (EFFECT-6), engine-state clause (ENGINE)", "4", "No location shared between goroutines is written during compile/invoke: every in-place write reachable from the entries whose target is (or can be, through fields and function results) a package-level variable or init-time captured variable is mutex-guarded, atomic or frozen with a constant-evaluated side condition; the VM is created inside the invocation closure; program bytes/constants are not written by anything reachable from Interp; engine fields are written only behind the init flag. Schedules are not explored; absence of shared writes is the argument."),
 
- "C02": ("SIBLING-4/8 + BC-2/3/5/6 + KINDSW", "4", "No node kind, opcode or type kind falls into an unreachable branch; the stack-effect induction shows pops never exceed pushes for any compiled program; growth precedes every store; operand ranges are asserted not truncated; a function value is never called strictly without consulting its Lazy flag (today violated at OP_DYNAMIC_CALL: known finding). Exact partial-operation semantics of float->int conversions are run-time values and not decided."),
- "C04": ("SIBLING-2 normal-form equality of VM opcode twins + INTGUARD + SIG-2", "4", "Thin claim: static analysis does not compute values. Decided are three necessary conditions: the VM's inline re-implementation of each built-in is the same expression as the library's, integer rendering is guarded by IsInt with a 2^63 bound, every built-in is registered exactly once. IEEE arithmetic, tolerance, rune counting, set semantics, strtotime and literal decoding are not decided."),
+ "C02": ("TOTAL-1 guard facts + SIG-1 abstract typing of built-ins + SIBLING-4/8 + BC-2/3/5/6 + KINDSW", "4", "Every index/division/assertion in the 56 built-ins and the set helpers is discharged by arity, loop shape or dominating 0<=i<len guards, or is in the documented-partial table; accessors applied to arguments match the declared parameter types; no node kind, opcode or type kind falls into an unreachable branch; the stack-effect induction shows pops never exceed pushes for any compiled program; growth precedes every store; operand ranges are asserted not truncated; a function value is never called strictly without consulting its Lazy flag (today violated at OP_DYNAMIC_CALL: known finding). Exact partial-operation semantics of float->int conversions are run-time values and not decided."),
+ "C04": ("SIBLING-2 normal-form equality of VM opcode twins + INTGUARD + SIG-1/2 + SETORD-1", "4", "Thin claim: static analysis does not compute values. Decided are necessary conditions: built-in bodies inhabit their declared signatures, the set helpers iterate the first operand in insertion order, the VM's inline re-implementation of each built-in is the same expression as the library's, integer rendering is guarded by IsInt with a 2^63 bound, every built-in is registered exactly once. IEEE arithmetic, tolerance, rune counting, set semantics, strtotime and literal decoding are not decided."),
  "C06": ("LAZY argument-builder discipline + SIBLING-3 ite-abstraction + BC-3 jump consistency", "4", "In each back end arguments are evaluated only in the not-Lazy branch and deferred otherwise, thunks are stateless single evaluations, the lazy built-ins force the condition once and then only the selected operand, the VM's conditional jumps make then/else exclusive, strict operands are popped back into source order."),
  "C11": ("BC-1..7 + SIG-3: induction over the bytecode compiler's source", "4", "Writer/reader operand agreement per opcode (and Go type of constants), width assertions, symbolic stack-effect walk of every emitter (net +1, never negative, both arms agree), jump placeholders patched once with forward boundary offsets at equal depth, opcode tables complete, one constant pool per compiler. This is the whole statement as an inductive fact about compiler source; the checker (not a proof assistant) is the trusted base."),
  "C15": ("CONV + SIBLING-10 kind-table agreement + PANIC-1", "4", "Type path and value path classify every reflect.Kind alike, depth limit on entry with lv+1 recursion, nil tested before use, unconditional homogeneity assertions, lock-step struct construction, conv entries return errors. Equality of contents with the Go value is not decided."),
@@ -13,7 +13,7 @@ claims = {
  "C19": ("DEBUG shape rules + LAZY + PANIC-1", "4", "Exactly the four term kinds are recorded at their own columns by a recorder that evaluates once and returns the same value, columns flow from tokens through desugaring, the record is fresh and cleared per run, the renderer counts runes, lazy operands are not evaluated (hence not recorded) unless selected. Equality with normal evaluation is C03."),
  "C20": ("SQL precedence constants + flow of run-time values through fmtVal + formatter shapes", "4", "NOT > AND > OR by constant evaluation, parenthesise iff outer power exceeds own, every run-time value and literal passes fmtVal, strings only through strconv.Quote, exact bool/num/time forms, connectives in position, no lazy SQL function. Re-parsing the output is not done."),
 
- "C01": ("EQ-FIELDS + TC + KINDSW + LAYOUT", "4", "Checker obligations that preservation rests on (homogeneity, arity/argument comparison, annotations written, slot-free instantiation), structural type equality compares every component like with like, and every index into an object value comes from that value's own layout. Necessary conditions decided for all programs; the soundness theorem itself is not proved."),
+ "C01": ("EQ-FIELDS + TC + KINDSW + LAYOUT + SIG-1 + EFFECT-6 + BC-6", "4", "Delta-rules preserve types (SIG-1: every built-in body inhabits its signature), values are never modified after construction, the VM stack never loses an operand. Checker obligations that preservation rests on (homogeneity, arity/argument comparison, annotations written, slot-free instantiation), structural type equality compares every component like with like, and every index into an object value comes from that value's own layout. Necessary conditions decided for all programs; the soundness theorem itself is not proved."),
  "C03": ("sibling cross-check of the two dispatch loops, node-kind coverage, opcode tables, thunk state, function tables", "4", "The two VM loops are compared handler by handler, every back end handles every core node kind, every opcode is handled/registered/named, thunk calls restore state, the two function tables are kept in lock-step. Agreement of sibling implementations is decided for all programs; value-level equality of results is not."),
  "C05": ("TC checker-obligation rules + EQ-FIELDS + KEY-1 + SIBLING-9", "4", "One obligation per typing rule of the statement, decided on the checker's source for all programs; the biconditional as a whole and unification's algebra are not decided."),
  "C07": ("ENVCHK dominance + PANIC-1 containment + EQ-FIELDS + LAYOUT", "4", "The compiled code is reached only after envCheck(compile env, same run-time env) returned nil, envCheck visits every compile-time name and asserts presence and types.Equals, failures come back as error, and field access does not depend on host field order."),
@@ -21,9 +21,9 @@ claims = {
  "C09": ("LEX registration/shape rules + constant evaluation of the repository's own patterns", "4", "Rule kinds, sort-before-register, primitive-operator look-ahead, rune-wise cursor, rune-count returns and registration order are decided for every operator set; the regular languages of the literal patterns are not analysed."),
  "C10": ("DS structural induction over Desugar's type switch", "4", "Core-forms-only, no sharing/mutation of annotated nodes, operand order, callee, pipeline order are decided for all trees; semantic equality of sugared and explicit forms follows from C03/C05 and is not decided here."),
  "C12": ("PANIC-1 recover-dominance + containment fixpoint; PARSE-8 backtracking structure", "4", "Every API entry converts internal panics to its error result (dominance of a recover handler that stores into the named error result, over resolved callees); the cursor is rewound only by tryParse and backtracking alternatives are counted. Termination and polynomial time in general are not decided."),
- "C13": ("whole-module effect scans + map-order classification + pairing + comparator discipline", "4", "No stdout writer but print, no reflection writes, every map iteration order-insensitive or sorted by an injective key, path-sets released, comparators index the sorted slice. Results of time literals relative to now are outside."),
+ "C13": ("whole-module effect scans + SSA store census (EFFECT-2/3/5/6, ENGINE) + map-order classification + pairing + comparator discipline", "4", "Caller-owned environments are never written (Inherit copies), values are immutable after construction (SSA provenance of every payload write), no process-global state is written, a fresh VM per invocation. No stdout writer but print, no reflection writes, every map iteration order-insensitive or sorted by an injective key, path-sets released, comparators index the sorted slice. Results of time literals relative to now are outside."),
  "C17": ("EQ-FIELDS + UN-1 + KINDSW", "4", "Equality/unification compare like components completely with exact length tests, bindings are made only under the occurs check on the substituted type and after the rebind test, kind switches are exhaustive. The algebraic laws (mgu, agreement with a reference matcher) are not decided."),
- "C18": ("SORTLESS + INTGUARD + PAIR + MAPORDER + EQ-FIELDS + LAYOUT", "4", "Canonical rendering (sorted by injective keys, comparators index the sorted slice, no heap addresses for acyclic values), int64 rendering only under IsInt with a 2^63 bound, value equality matches object fields by name. The biconditional for arbitrary value pairs is not decided."),
+ "C18": ("SORTLESS + INTGUARD + PAIR + MAPORDER + EQ-FIELDS + LAYOUT + IDENT-1 + SETORD-1", "4", "Per-kind identity table (time: known finding), set membership keyed by the canonical rendering. Canonical rendering (sorted by injective keys, comparators index the sorted slice, no heap addresses for acyclic values), int64 rendering only under IsInt with a 2^63 bound, value equality matches object fields by name. The biconditional for arbitrary value pairs is not decided."),
 }
 na = {
 }
